@@ -418,7 +418,9 @@ class Function(object):
                 if xj_id is None:
                     xj_id = "Point_{}".format(j)
 
-                if i == j or (i > j and symmetry):
+                # No constraint between a point and itself
+                # (note the 2 lists may differ: compare the points, not their positions in their respective lists).
+                if point_i is point_j or (i > j and symmetry):
                     row_of_constraints.append(0)
 
                 else:
